@@ -100,7 +100,7 @@ CHECKS = {
     technique='Coq proof (structural induction on expression trees, evaluation-context relation) + random-tree correspondence'),
  'C15': dict(
     text='Coq theorems for strings of any length: LEFT/RIGHT/MID as firstn/skipn with the whole-text, empty and #VALUE! '
-         'cases, LEFT&RIGHT split, MID(s,1,n) = LEFT, LEN additive, lengths of slices, three-way LEFT&MID&RIGHT split, slices of a concatenation; UPPER/LOWER idempotent and character-wise, lifted from '
+         'cases, LEFT&RIGHT split, MID(s,1,n) = LEFT, LEN additive, lengths of slices, three-way LEFT&MID&RIGHT split, slices of a concatenation - and the LEFT/RIGHT/MID source terms regenerated from text.py denote the model functions under Python slice semantics; UPPER/LOWER idempotent and character-wise, lifted from '
          'finite facts about the case table regenerated from the interpreter; uncased characters untouched; PROPER '
          'idempotent under a decidable per-character condition failing exactly on U+0130/U+01F0 (refuted witness, known '
          'finding); TRIM idempotent, keeps every non-space character, normal form; CLEAN = filter; CODE(CHAR n) = n; '
